@@ -39,6 +39,11 @@ func typeTriggers(t zed.Type, s trigSet, names map[string]zed.Type) {
 		}
 		if _, ok := t.Type.(*zed.TypeNamed); ok {
 			s["named-of-named"] = true
+			if containsNamed(zed.TypeUnder(t.Type)) {
+				// the value is followed by the full type (outer=inner=...), which
+				// names types that are first defined inside the value
+				s["named-of-named-with-inner-named"] = true
+			}
 		}
 		if prev, ok := names[t.Name]; ok && prev != zed.Type(t) {
 			s["name-redefined"] = true
